@@ -170,6 +170,14 @@ class C07World(WalletWorld):
         if need and total > need * 1.3 + 50000 and not isinstance(exc, str):
             self.w.probe('refused_feasible')
 
+    @staticmethod
+    def bump_change(wi):
+        """Scripts of the outputs fee bumps added for this wallet's own change (bumpfee pays them to a receiving-chain
+        key); a requested recipient they are not, later bumps may draw on them."""
+        if not hasattr(wi, 'bump_change_spk'):
+            wi.bump_change_spk = set()
+        return wi.bump_change_spk
+
     def on_bumped(self, wi, h, t, old_fee, old_txid):
         w = self.w
         sig = {'api': 'bumpfee', 'stage': 'bumped'}
@@ -196,8 +204,8 @@ class C07World(WalletWorld):
         new_outs = [(o.script_pubkey, o.value) for o in rt.vout]
         for o in old.tx.vout:
             a = rcodec.script_to_address(o.script_pubkey, self.network)
-            if a in change:
-                continue
+            if a in change or o.script_pubkey in self.bump_change(wi):
+                continue        # change, incl. the receiving-chain change output an earlier bump added
             if (o.script_pubkey, o.value) in new_outs:
                 new_outs.remove((o.script_pubkey, o.value))
             else:
@@ -209,6 +217,7 @@ class C07World(WalletWorld):
                 own = own or self.change_addresses(wi, h, own=True)
                 if a in own:
                     w.probe('change_paid_to_receiving_chain_address')     # same wallet, not the change chain
+                    self.bump_change(wi).add(s)
                     continue
                 w.violation('extra_output_not_to_change_address', sig, 'after bumpfee: %d to %s' % (v, a))
         # output numbering must match the serialization order
@@ -255,6 +264,7 @@ class C07World(WalletWorld):
             a = rcodec.script_to_address(spk, self.network)
             if a not in own:
                 w.violation('extra_output_not_to_change_address', sig, 'after bumpfee: %d to %s' % (val, a))
+            self.bump_change(wi).add(spk)
         ns = [o.output_n for o in t.outputs]
         if ns != list(range(len(ns))):
             w.violation('output_n_not_sequential', sig, 'output_n after bumpfee: %s' % ns)
